@@ -30,6 +30,15 @@ send times), the time it closed its socket, and its application callbacks:
   write_after_close     write_message after close() or after the close notification did not
                         fail with WebSocketClosedError
   close.unhandled_exception  a task / callback died with an exception during the close sequence
+  close.raised          close() with sendable arguments raised
+  close.echo_missing    the peer's close frame was processed (the application was told its code)
+                        but this side never sent a close frame
+  close.frame_missing   an accepted close() on a fully open connection put no close frame on the wire
+  write_rejected_while_open  write_message raised WebSocketClosedError although neither side had
+                        started to close
+A local close() whose arguments cannot be sent (reason > 123 bytes, code outside 0..65535)
+raises on the unchanged tree and leaves the connection fully open; the model treats it as if
+it had not happened (it is not a "local close" for any rule above).
 """
 
 import gc
@@ -51,7 +60,9 @@ RULE = ("gen(seed): rig (raw peer as client / raw peer as server / real client+s
         "timeout, withheld), its reply to Tornado's close frame (echo now, echo around the 5 s closing "
         "timeout, never, FIN), async on_message pacing, and a timed op script drawn from templates "
         "(peer closes first, local close first, crossing closes, disconnect, ping timeout, mixed) "
-        "with in-flight messages, application writes before/after close, sleeps placed at the 5 s and "
+        "with in-flight messages, application writes before/after close, close() calls whose arguments "
+        "are rejected (too-long reason, out-of-range code; also as try-bad/retry-good pairs), sleeps "
+        "placed at the 5 s and "
         "ping deadlines -1/0/+1 tick; peer close payloads: empty, 1 byte, code, code+reason, "
         "code+non-UTF-8 reason; tapes: late (timer lateness), defer, recv_cap, delay. non-trivial = "
         "handshake completed AND a close sequence actually started (a close frame was sent by "
@@ -76,6 +87,9 @@ ASSUMPTIONS = [
     "close frame (it echoed it, or it tore the connection down before the 5 s timeout with no "
     "FIN/RST from the peer)",
     "timer lateness allowance = sum of the late and cost tapes + 8 ticks",
+    "a close() that raises for unsendable arguments leaves the connection untouched (what the "
+    "unchanged tree does); close.echo_missing / close.frame_missing are not judged in runs with "
+    "send back-pressure or RST, where bytes queued just before stream.close() may never reach the wire",
 ]
 
 _speedups.ensure()
